@@ -38,6 +38,11 @@ PROPS = {
             "rule": "one case per final state of LLS.tla (solver x lamda x z x proxg x G, 288 option records) x option variants (step sizes / preconditioner / rho given or defaulted, x0 given or not) x real/complex instance; all non-trivial",
             "assumptions": ["instances: A 3x2, G 2x2 dense or finite difference, g in {none, l1, l2^2, box}; optimum by enumeration of the smooth pieces (exact for these instances)", "iteration budgets CG 30, GM 4000, PDHG 6000, ADMM 400x10; tolerance 2e-3 relative on the documented objective"],
             "trusted": TLC_BASE + ["numpy.linalg.solve / lstsq for the piecewise KKT reference"]},
+    "C13": {"level": "model_checking", "engines": [("descent", "descent", "run")],
+            "rule": "exact tier: one case per TLC state of ProxGrad.tla (instance, iteration) replayed on GradientMethod, with the O(1/k) bound evaluated on the exact iterates; trace tier: one recorded GradientMethod / PDHG run per seeded problem with known minimiser; all non-trivial",
+            "assumptions": ["exact tier: separable quadratics d in {(4,1),(2,2),(8,1),(4,0),(1,8)}, g in {0,l1,l2^2,box}, alpha in {1/L, 1/(2L)}, 3 updates", "trace tier: n 4..40, real/complex, Nesterov's worst-case quadratic, scalar and array-valued steps, strong-convexity acceleration; slack 1e-6",
+                            "the Fejer-monotone distance is the M-norm of (x_{k-1}, u_k) (sigpy updates the dual first): see DESIGN.md C13"],
+            "trusted": TLC_BASE + ["Rat.tla", "numpy for objective / norm evaluation in the trace tier"]},
     "C09": {
         "level": "model_checking",
         "engines": [("index_maps", "index_maps", "run")],
@@ -52,6 +57,8 @@ PROPS = {
 HOOK_COMMITS = ["609775d"]
 
 ENGINES = [
+    {"name": "descent", "path": "harness/engines/descent.py + spec/ProxGrad.tla, spec/DescentTrace.tla", "serves_properties": ["C13", "C15"],
+     "kind_free_text": "TLC on exact proximal-gradient trajectories + replay; trace validation of accelerated / primal-dual runs against rate, Fejer and fixed-point conditions"},
     {"name": "lls", "path": "harness/engines/lls.py + spec/LLS.tla", "serves_properties": ["C14"],
      "kind_free_text": "TLC over the option cross product of LinearLeastSquares._get_alg (assembled vs documented problem) + replay of every configuration against an independently computed optimum"},
     {"name": "cg", "path": "harness/engines/cg.py + spec/CG.tla, spec/CGTrace.tla", "serves_properties": ["C12", "C15"],
@@ -102,7 +109,7 @@ MANIFEST_TEXT = {
 }
 
 NOT_APPLICABLE = {p: "check not built yet in this round (planned, see DESIGN.md section 5)" for p in
-                  ["C05", "C06", "C07", "C08", "C10", "C13", "C16", "C17", "C19"]}
+                  ["C05", "C06", "C07", "C08", "C10", "C16", "C17", "C19"]}
 
 MANIFEST_TEXT["C18"] = {
     "text": "PoissonSearch.tla models the slope bisection on a float lattice with an arbitrary (non-monotone) acceleration function; TLC checks OkIsWithinTol and the liveness property Terminates (the loop without the collapse test is kept as a negative control that must fail). poisson() is run on the real code with _poisson wrapped under a watchdog; every call (probes as slope ranks + integer facts about the mask, RNG state crc, reproducibility memo) is validated by TLC against PoissonTrace.tla.",
@@ -127,3 +134,9 @@ MANIFEST_TEXT["C14"] = {
     "design_ref": "DESIGN.md section 5 C14",
     "note": "Trusted: TLC, the harness's piecewise KKT reference (numpy). Iteration budgets calibrated once on the repaired tree.",
     "technique": "TLA+ dispatch/assembly model (TLC, with negative control) + spec-to-code replay against an independent optimum"}
+
+MANIFEST_TEXT["C13"] = {
+    "text": "ProxGrad.tla models the plain proximal-gradient update on separable quadratics (ill-conditioned and rank-deficient) with g in {0, l1, l2^2, box} in exact rationals; TLC checks ObjectiveNonIncreasing, DistanceNonIncreasing, XstarIsFixed, EarlyStopOnlyAtFixedPoint, every state is replayed on GradientMethod and the O(1/k) gap bound is evaluated on the exact iterates. Accelerated GradientMethod and PrimalDualHybridGradient (scalar/array steps, strong-convexity acceleration) are run on larger real/complex problems built around a known minimiser; per-update ratios to the theoretical rate, objective increases, the M-norm distance to the saddle point, tau*sigma invariance, the saddle-point defect, final distance and in-place flags are validated by TLC against DescentTrace.tla.",
+    "design_ref": "DESIGN.md section 5 C13",
+    "note": "Level is model_checking for the exact tier and the trace protocol; the rate clauses of the accelerated variants are numeric (exploration-grade) because theta = 1/sqrt(1+2*gamma*tau) is irrational. Trusted: numpy norms, problem construction around a known minimiser.",
+    "technique": "TLA+ exact trajectories (TLC) + replay + trace validation of convergence-rate and Fejer conditions"}
